@@ -68,29 +68,46 @@ def _schedule_table(counters):
     return dict(sorted(table.items()))
 
 
+def _tsan_summaries(scratch):
+    """(kind, function) of every unsuppressed report, from the SUMMARY lines in the TSan shards' stderr files."""
+    found = []
+    for name in sorted(os.listdir(scratch)):
+        if not name.startswith("stderr-tsan"):
+            continue
+        try:
+            text = open(os.path.join(scratch, name), errors="replace").read()
+        except OSError:
+            continue
+        for m in re.finditer(r"^SUMMARY: ThreadSanitizer: (.+?) (\S+) in (.+)$", text, re.M):
+            kind = m.group(1).strip().replace(" ", "-")
+            fn = re.sub(r"::h[0-9a-f]{16}$", "", m.group(3).strip())
+            fn = re.sub(r"(?<=\w)<[^>]*>", "", fn)      # generic arguments out, `<Type>::method` kept
+            fn = re.sub(r"::<[^>]*>", "", fn)
+            fn = re.sub(r"\{closure[^}]*\}", "{closure}", fn)
+            if (kind, fn) not in found:
+                found.append((kind, fn))
+    return found
+
+
 def _rekey_tsan(layer, scratch):
     """A TSan report ends the worker with exit 66; the supervisor files that as crash|tsan-report|?. Name it after the
-    report kind and the function in the SUMMARY line instead."""
+    report kind and the function in the SUMMARY line instead (function names, no line numbers)."""
+    summaries = _tsan_summaries(scratch)
     for sig in list(layer.violations.keys()):
         if not sig.startswith("crash|"):
             continue
         w = layer.violations.pop(sig)
         n = layer.viol_counts.pop(sig)
-        text = (w.get("detail") or {}).get("stderr", "")
-        m = TSAN_RE.search(text)
-        if m or "tsan-report" in sig:
-            kind = m.group(1).strip().replace(" ", "-") if m else "report"
-            sm = re.search(r"SUMMARY: ThreadSanitizer: [^\n]* in (\S+)", text)
-            fn = sm.group(1) if sm else "?"
-            fn = re.sub(r"::h[0-9a-f]{16}$", "", fn)
-            fn = re.sub(r"<[^>]*>", "", fn)
-            new = f"tsan|{kind}|{fn}"
-            w = dict(w, sig=new, what=f"[tsan] ThreadSanitizer: {kind} in {fn}; {w['what']}")
+        if "tsan-report" in sig:
+            for kind, fn in summaries or [("report", "?")]:
+                new = f"tsan|{kind}|{fn}"
+                if new not in layer.violations:
+                    layer.violations[new] = dict(w, sig=new, what=f"[tsan] ThreadSanitizer: {kind} in {fn}; {w['what']}")
+                layer.viol_counts[new] = layer.viol_counts.get(new, 0) + n
         else:
             new = "tsan-layer-" + sig
-            w = dict(w, sig=new, what="[tsan layer] " + w["what"])
-        layer.violations[new] = w
-        layer.viol_counts[new] = layer.viol_counts.get(new, 0) + n
+            layer.violations[new] = dict(w, sig=new, what="[tsan layer] " + w["what"])
+            layer.viol_counts[new] = layer.viol_counts.get(new, 0) + n
 
 
 def _merge_violations(dst, src):
